@@ -27,7 +27,7 @@ typedef struct {
 	int nsteps; step_t st[MAXSTEP];
 } script_t;
 
-static script_t SCR[24]; static int NSCR;
+static script_t SCR[32]; static int NSCR;
 static uint64_t (*BASE)[MAXSTEP];	/* baseline per-step trace hashes, shared memory */
 static int st_states, st_trans, st_exec, st_dn, st_pairs, st_triples, st_quads;
 
@@ -36,6 +36,7 @@ typedef struct {
 	const script_t *s; int pc; of_session_t *ses;
 	unsigned char **sym; void **tab; void **src; unsigned char **lib_built;
 	int *order; int norder;	/* S_CASCADE submission order (from the reference matrix) */
+	int key_repair;		/* ESI of the repair symbol of the first equation of the missing source */
 	uint64_t trace[MAXSTEP];
 } inst_t;
 
@@ -72,10 +73,15 @@ static void inst_init (inst_t *x, const script_t *s)
 	for (i = 0; i < n; i++) x->sym[i] = calloc (1, (size_t) s->len);
 	gen_codeword (s, x->sym);
 	if (s->codec == 3 && s->N1 <= s->r && s->N1 >= 3 && s->seed >= 1) {
-		int st, miss = -1, pass, e;
-		for (st = 0; st < s->nsteps; st++) if (s->st[st].kind == S_CASCADE) miss = (int) s->st[st].a;
-		if (miss >= 0) {
+		int st, miss = -1, pass, e, want = 0;
+		for (st = 0; st < s->nsteps; st++) if (s->st[st].kind == S_CASCADE) { want = 1; miss = (int) (INT32) s->st[st].a; }
+		if (want) {
 			bitmat *H = rfc5170_H (s->k, n, s->N1, (uint64_t) s->seed, NULL);
+			int best = -1, bestrow = -1, j;
+			for (e = 0; e < s->k; e++) { for (j = 0; j < s->r && !bm_get (H, j, e); j++) ; if (j > bestrow) { bestrow = j; best = e; } }
+			if (miss < 0) miss = best;	/* the source that appears latest in the staircase: the longest cascade */
+			for (j = 0; j < s->r && !bm_get (H, j, miss); j++) ;
+			x->key_repair = s->k + j;
 			x->order = malloc (sizeof (int) * (size_t) s->k);
 			for (pass = 0; pass < 2; pass++) for (e = 0; e < s->k; e++) if (e != miss && bm_get (H, 0, e) == pass) x->order[x->norder++] = e;
 			bm_free (H);
@@ -119,7 +125,7 @@ static uint64_t inst_step (inst_t *x)
 		st = of_build_repair_symbol (x->ses, x->tab, (UINT32) esi);
 		if (st == OF_STATUS_OK) vf_h_bytes (&h, x->tab[esi], (size_t) s->len);
 		break; }
-	case S_DWS: st = of_decode_with_new_symbol (x->ses, x->sym[t->a], (UINT32) t->a); break;
+	case S_DWS: { UINT32 esi = t->a == 0xFFFFFFFFu ? (UINT32) x->key_repair : (UINT32) t->a; st = of_decode_with_new_symbol (x->ses, x->sym[esi], esi); break; }
 	case S_SAS: for (i = 0; i < n; i++) x->tab[i] = ((t->a >> i) & 1) ? x->sym[i] : NULL; st = of_set_available_symbols (x->ses, x->tab); break;
 	case S_FIN: st = of_finish_decoding (x->ses); break;
 	case S_QUERY: {
@@ -192,8 +198,23 @@ static void build_catalogue (void)
 	s = new_script ("ldpc-decoder-same-seed-as-encoder", 3, OF_DECODER, 6, 4, 9, 0, 3, 5, 1); add (s, S_CREATE, 0); add (s, S_SET, 0); add (s, S_DWS, 9); add (s, S_DWS, 8); add (s, S_DWS, 7); add (s, S_FIN, 0); add (s, S_QUERY, 0); add (s, S_RELEASE, 0);
 	s = new_script ("ldpc-encoder-maxseed", 3, OF_ENCODER, 5, 4, 6, 0, 3, 2147483646, 0); add (s, S_CREATE, 0); add (s, S_SET, 0); add (s, S_BUILD, 5); add (s, S_BUILD, 6); add (s, S_BUILD, 7); add (s, S_RELEASE, 0);
 	s = new_script ("rs2m4-encoder-same-kr-as-m8", 2, OF_ENCODER, 4, 3, 7, 4, 0, 0, 0); add (s, S_CREATE, 0); add (s, S_SET, 0); add (s, S_BUILD, 4); add (s, S_BUILD, 6); add (s, S_RELEASE, 0);
+	{	/* a streaming decoder (no FINISH) whose query shows symbols rebuilt by the iterative decoder: 4 received symbols chosen
+		 * (from the reference matrix) so that peeling rebuilds as many further source symbols as possible */
+		int k = 4, r = 5, n = 9, N1 = 3, seed = 11, a, b, c, d, best[4] = {0, 1, 2, 3}, bestgain = -1;
+		bitmat *H = rfc5170_H (k, n, N1, (uint64_t) seed, NULL);
+		for (a = 0; a < n; a++) for (b = a + 1; b < n; b++) for (c = b + 1; c < n; c++) for (d = c + 1; d < n; d++) {
+			uint64_t kn = ((uint64_t) 1 << a) | ((uint64_t) 1 << b) | ((uint64_t) 1 << c) | ((uint64_t) 1 << d), k0 = kn;
+			int gain = 0, e;
+			gf2_peel (H, &kn);
+			for (e = 0; e < k; e++) if (((kn >> e) & 1) && !((k0 >> e) & 1)) gain++;
+			if (gain > bestgain) { bestgain = gain; best[0] = a; best[1] = b; best[2] = c; best[3] = d; }
+		}
+		bm_free (H);
+		s = new_script ("ldpc-decoder-streaming", 3, OF_DECODER, k, r, 6, 0, N1, seed, 0); add (s, S_CREATE, 0); add (s, S_SET, 0);
+		add (s, S_DWS, (uint64_t) best[3]); add (s, S_DWS, (uint64_t) best[1]); add (s, S_DWS, (uint64_t) best[2]); add (s, S_DWS, (uint64_t) best[0]); add (s, S_QUERY, 0); add (s, S_RELEASE, 0);
+	}
 	/* a long staircase decoded in one peeling cascade (330 nested rebuilt symbols), and a code whose equations hold 300+ symbols */
-	s = new_script ("ldpc-decoder-long-cascade", 3, OF_DECODER, 330, 330, 4, 0, 3, 6, 0); add (s, S_CREATE, 0); add (s, S_SET, 0); add (s, S_CASCADE, 7); add (s, S_DWS, 660 - 1); add (s, S_QUERY, 0); add (s, S_RELEASE, 0);
+	s = new_script ("ldpc-decoder-long-cascade", 3, OF_DECODER, 330, 330, 4, 0, 3, 6, 0); add (s, S_CREATE, 0); add (s, S_SET, 0); add (s, S_CASCADE, 0xFFFFFFFFu); add (s, S_DWS, 0xFFFFFFFFu); add (s, S_QUERY, 0); add (s, S_RELEASE, 0);
 	s = new_script ("ldpc-encoder-wide-rows", 3, OF_ENCODER, 300, 3, 4, 0, 3, 4, 0); add (s, S_CREATE, 0); add (s, S_SET, 0); add (s, S_BUILDALL, 0); add (s, S_RELEASE, 0);
 	s = new_script ("ldpc-rejected-seed", 3, OF_ENCODER, 5, 4, 4, 0, 3, 0, 0); add (s, S_CREATE, 0); add (s, S_SET, 0); add (s, S_RELEASE, 0);
 }
@@ -212,6 +233,8 @@ static void baseline_child (long it, void *arg)
 /* ------------------------------------------------------------------ interleavings */
 typedef struct { int ns; int sc[4]; int maxsw; } combo_t;
 static combo_t *CB; static long NCB;
+static long g_cur_item = -1, g_sched_idx, g_stop_after = -1;	/* the schedules of one combination run in one process, in a fixed order: (item, index) identifies a history */
+static int g_thorough_flag;
 static int g_maxswitch;
 
 static void run_schedule (const combo_t *c, const unsigned char *sched, int len)
@@ -219,7 +242,9 @@ static void run_schedule (const combo_t *c, const unsigned char *sched, int len)
 	inst_t x[4];
 	int i, j;
 	char cs[VF_SLOT_LEN]; size_t l;
-	l = (size_t) snprintf (cs, sizeof cs, "scripts=");
+	if (g_stop_after >= 0 && g_sched_idx > g_stop_after) return;
+	l = (size_t) snprintf (cs, sizeof cs, "item=%ld idx=%ld tier=%s scripts=", g_cur_item, g_sched_idx, g_thorough_flag ? "thorough" : "quick");
+	g_sched_idx++;
 	for (i = 0; i < c->ns; i++) l += (size_t) snprintf (cs + l, sizeof cs - l, "%d%s", c->sc[i], i + 1 < c->ns ? "," : "");
 	l += (size_t) snprintf (cs + l, sizeof cs - l, " schedule=");
 	for (i = 0; i < len && l + 2 < sizeof cs; i++) cs[l++] = (char) ('0' + sched[i]);
@@ -255,19 +280,37 @@ static void enum_rec (const combo_t *c, int *left, unsigned char *sched, int pos
 		left[i]++;
 	}
 }
-static void item (long it, void *arg)
+static void item_body (long it, void *arg)
 {
 	const combo_t *c = &CB[it];
 	int left[4] = {0, 0, 0, 0}, total = 0, i;
 	unsigned char sched[4 * MAXSTEP];
 	(void) arg;
 	vf_slot_set_prop ("C12");
-	if (vf_deadline_hit ()) { vf_incomplete ("deadline before combination %ld", it); return; }
+	g_cur_item = it; g_sched_idx = 0;
 	for (i = 0; i < c->ns; i++) { left[i] = SCR[c->sc[i]].nsteps; total += left[i]; }
 	enum_rec (c, left, sched, 0, total, -1, 0);
 	vf_stat_add (st_states, 1);
 	vf_stat_add (c->ns == 2 ? st_pairs : c->ns == 3 ? st_triples : st_quads, 1);
 }
+/* every combination starts from a pristine copy of the process (fork): the library's global state then depends only on the
+ * schedules of this combination executed so far, so (item, index) is a complete, replayable description of a history */
+static void item (long it, void *arg)
+{
+	int rc;
+	char ak[64], af[128];
+	(void) arg;
+	vf_slot_set_prop ("C12");
+	if (vf_deadline_hit ()) { vf_incomplete ("deadline before combination %ld", it); return; }
+	rc = vf_run_isolated (item_body, it, NULL, 0, ak, af, sizeof ak);
+	if (rc != 0) {
+		char sig[200];
+		if (ak[0]) snprintf (sig, sizeof sig, "kind=asan:%s|func=%s", ak, af[0] ? af : "?"); else snprintf (sig, sizeof sig, "kind=%s:%d", rc > 0 ? "signal" : "abnormal-end", rc);
+		vf_viol ("C12", sig, "%s", vf_slot ());
+		vf_incomplete ("combination %ld aborted (%s)", it, sig);
+	}
+}
+static void build_combos (int thorough);
 static void item_replay (long it, void *arg)
 {
 	const char *cs = vf_replay_case (), *p;
@@ -275,6 +318,13 @@ static void item_replay (long it, void *arg)
 	(void) it; (void) arg;
 	vf_slot_set_prop ("C12");
 	memset (&c, 0, sizeof c);
+	if ((p = strstr (cs, "item=")) && strstr (cs, " idx=")) {
+		long itn = strtol (p + 5, NULL, 10), idx = strtol (strstr (cs, " idx=") + 5, NULL, 10);
+		g_thorough_flag = strstr (cs, "tier=thorough") != NULL;
+		if (!CB) build_combos (g_thorough_flag);
+		if (itn >= 0 && itn < NCB) { g_stop_after = idx; item_body (itn, NULL); }
+		return;
+	}
 	p = strstr (cs, "scripts="); if (!p) return; p += 8;
 	while (*p && *p != ' ' && c.ns < 4) { c.sc[c.ns++] = (int) strtol (p, (char **) &p, 10); if (*p == ',') p++; }
 	p = strstr (cs, "schedule="); if (!p) return; p += 9;
@@ -282,27 +332,9 @@ static void item_replay (long it, void *arg)
 	run_schedule (&c, sched, len);
 }
 
-int main (int argc, char **argv)
+static void build_combos (int thorough)
 {
-	int thorough, a, b, c;
-	vf_init (argc, argv);
-	thorough = vf_tier_thorough ();
-	st_states = vf_stat_id ("states"); st_trans = vf_stat_id ("transitions"); st_exec = vf_stat_id ("executions"); st_dn = vf_stat_id ("distinct_nontrivial");
-	st_pairs = vf_stat_id ("pairs"); st_triples = vf_stat_id ("triples"); st_quads = vf_stat_id ("quadruples");
-	build_catalogue ();
-	BASE = mmap (NULL, sizeof (uint64_t) * MAXSTEP * 24, PROT_READ | PROT_WRITE, MAP_SHARED | MAP_ANONYMOUS, -1, 0);
-	for (a = 0; a < NSCR; a++) {
-		int rc = vf_run_isolated (baseline_child, a, NULL, 60, NULL, NULL, 0);
-		if (rc != 0) { vf_viol ("C12", "kind=script-alone-crashes", "scripts=%d schedule=%s", a, "0000000"); }
-	}
-	/* a second baseline in the same pristine way must agree (determinism of the baseline itself) */
-	{
-		uint64_t keep[24][MAXSTEP];
-		memcpy (keep, BASE, sizeof keep);
-		for (a = 0; a < NSCR; a++) { vf_run_isolated (baseline_child, a, NULL, 60, NULL, NULL, 0); if (memcmp (keep[a], BASE[a], sizeof keep[a])) vf_viol ("MACHINERY", "kind=baseline-not-deterministic", "script %s", SCR[a].name); }
-	}
-	g_maxswitch = (int) vf_opt_long ("switches", thorough ? 5 : 3);
-	if (vf_replay_case ()) { vf_pool_run (1, item_replay, NULL, 120); vf_finish (); return 0; }
+	int a, b, c;
 	CB = calloc (16384, sizeof (combo_t));
 	for (a = 0; a < NSCR; a++) for (b = a; b < NSCR; b++) { CB[NCB].ns = 2; CB[NCB].sc[0] = a; CB[NCB].sc[1] = b; NCB++; }
 	for (a = 0; a < NSCR; a++) for (b = a; b < NSCR; b++) for (c = b; c < NSCR; c++) { if (!thorough && a == b && b == c) continue; if (SCR[a].k >= 300 || SCR[b].k >= 300 || SCR[c].k >= 300) { if (!(thorough && a != b && b != c)) continue; } CB[NCB].ns = 3; CB[NCB].sc[0] = a; CB[NCB].sc[1] = b; CB[NCB].sc[2] = c; NCB++; }
@@ -314,10 +346,36 @@ int main (int argc, char **argv)
 			CB[NCB].ns = 4; CB[NCB].sc[0] = a; CB[NCB].sc[1] = b; CB[NCB].sc[2] = c; CB[NCB].sc[3] = d; CB[NCB].maxsw = thorough ? 4 : 3; NCB++;
 		}
 	}
+}
+
+int main (int argc, char **argv)
+{
+	int thorough, a, b, c;
+	vf_init (argc, argv);
+	thorough = vf_tier_thorough ();
+	st_states = vf_stat_id ("states"); st_trans = vf_stat_id ("transitions"); st_exec = vf_stat_id ("executions"); st_dn = vf_stat_id ("distinct_nontrivial");
+	st_pairs = vf_stat_id ("pairs"); st_triples = vf_stat_id ("triples"); st_quads = vf_stat_id ("quadruples");
+	build_catalogue ();
+	BASE = mmap (NULL, sizeof (uint64_t) * MAXSTEP * 32, PROT_READ | PROT_WRITE, MAP_SHARED | MAP_ANONYMOUS, -1, 0);
+	for (a = 0; a < NSCR; a++) {
+		int rc = vf_run_isolated (baseline_child, a, NULL, 60, NULL, NULL, 0);
+		if (rc != 0) { vf_viol ("C12", "kind=script-alone-crashes", "scripts=%d schedule=%s", a, "0000000"); }
+	}
+	/* a second baseline in the same pristine way must agree (determinism of the baseline itself) */
+	{
+		uint64_t keep[32][MAXSTEP];
+		memcpy (keep, BASE, sizeof keep);
+		for (a = 0; a < NSCR; a++) { vf_run_isolated (baseline_child, a, NULL, 60, NULL, NULL, 0); if (memcmp (keep[a], BASE[a], sizeof keep[a])) vf_viol ("MACHINERY", "kind=baseline-not-deterministic", "script %s", SCR[a].name); }
+	}
+	g_maxswitch = (int) vf_opt_long ("switches", thorough ? 5 : 3);
+	if (vf_replay_case ()) { vf_pool_run (1, item_replay, NULL, 600); vf_finish (); return 0; }
+	g_thorough_flag = thorough;
+	build_combos (thorough);
 	vf_note ("%d scripts, %ld combinations (pairs: all interleavings; triples: <= %d context switches)", NSCR, NCB, g_maxswitch);
 	vf_pool_run (NCB, item, NULL, 0);
 	vf_stat_add (st_dn, vf_stat_get (st_exec));
 	for (a = 0; a < NSCR; a++) vf_outcome (SCR[a].name, SCR[a].nsteps);
+	for (a = 0; a < NSCR; a++) { int q, has = 0; for (q = 0; q < SCR[a].nsteps; q++) if (SCR[a].st[q].kind == S_CASCADE) has = 1; if (has) { inst_t x; inst_init (&x, &SCR[a]); vf_note ("script %s: cascade of %d nested rebuilt repair symbols (missing source first appears in equation %d)", SCR[a].name, x.key_repair - SCR[a].k, x.key_repair - SCR[a].k); inst_free (&x); } }
 	vf_sample ("scripts=1,5 schedule=0101010101010: rs28-decoder-matrix interleaved call by call with ldpc-decoder-ml; both traces equal their stand-alone traces");
 	vf_sample ("ldpc-decoder-ml receives mask 0x%llx: peeling fails, the system has full rank, FINISH runs Gaussian elimination and consumes rand()", (unsigned long long) SCR[5].st[2].a);
 	vf_finish ();
